@@ -26,10 +26,13 @@
 //! Guards: limit ≥ 1 (callers pass batch_size ≥ 1), "unlimited" is 2^20, not usize::MAX (`start + limit`
 //! would overflow; real callers pass a batch size).
 //!
-//! Sensitivity probes (mkpatch + mutrun, `./check C14 quick`):
-//!  1. join_hash_map.rs `(idx, Some(0)) => idx + 1` → `=> idx`  (finished probe row re-processed)   -> VIOLATION
-//!  2. chain.rs `Some((prob_idx, Some(next.into())))` → always resume with `Some(0)`... see list below
-//!  3. unique fast path without the NULL-key test (`if false && valid_keys…`)                         -> VIOLATION
+//! Sensitivity probes (mkpatch + mutrun, `./check C14 quick`; all detected within 40 cases):
+//!  1. join_hash_map.rs `(idx, Some(0)) => idx + 1` → `=> idx` (finished probe row processed again)
+//!     -> VIOLATION "paged lookup did not finish within N pages"
+//!  2. join_hash_map.rs unique-key fast path tests `valid.is_null(i)` instead of `valid.is_null(start + i)`
+//!     -> VIOLATION "concatenated pages differ from the unpaged lookup" (masked row matched on a later page)
+//!  3. chain.rs `if is_last_input && next == zero` → `if next == zero` (lookup ends early when a chain ends
+//!     exactly on the page limit) -> VIOLATION (panic: `remaining -= 1` underflows on the resumed call)
 use arrow::array::Array;
 use arrow::buffer::NullBuffer;
 use datafusion_physical_plan::joins::join_hash_map::{JoinHashMapType, JoinHashMapU32, JoinHashMapU64};
